@@ -33,6 +33,9 @@ registry! {
     c11 => "C11",
     c12 => "C12",
     c13 => "C13",
+    c15 => "C15",
+    c16 => "C16",
+    c17 => "C17",
     c18 => "C18",
     c19 => "C19",
     c20 => "C20",
